@@ -14,7 +14,8 @@ RULE = ("2-3 operations from {shell with 0..3 chunks, exec_out, stat, list, smal
         "passes alone, nothing is lost (with an instantaneous device an empty wire while a packet is expected means loss), no deadlock (exact), lock order transport->store only, "
         "never two actors inside the transport, no managed lock held when a call ends. A store-put wrapper classifies known finding K1 by mechanism. "
         "non-trivial = at least one context switch between actors; distinct = distinct schedule traces")
-ASSUMPTIONS = ["the simulated device is instantaneous, so an empty read while a packet is expected is a lost packet, not slowness",
+ASSUMPTIONS = ["operations run to completion: cancelling a task / killing a thread in the middle of an operation is not driven (the unchanged library is not cancellation-safe inside a packet)",
+               "the simulated device is instantaneous, so an empty read while a packet is expected is a lost packet, not slowness",
                "asyncio tasks can only interleave at awaits: the async twin yields at transport calls and lock operations, never at source lines",
                "schedules beyond the preemption bound are sampled, not enumerated"]
 SHARDS = {"quick": 16, "thorough": 16}
@@ -104,9 +105,24 @@ class PutSpy(object):
             return r
         cls.put = put
         self.actor = lambda: None
+        self.core = None
+        self.wiped_live = []
+        self.orig_clear_all = cls.clear_all
+
+        def clear_all(store):
+            # packets parked on the connection that is still up are somebody's pending input: wiping them loses them
+            try:
+                pending = len(store)
+            except Exception:  # noqa
+                pending = 0
+            if pending and spy.core is not None and spy.core.connected:
+                spy.wiped_live.append((spy.actor(), pending))
+            return spy.orig_clear_all(store)
+        cls.clear_all = clear_all
 
     def remove(self):
         self.cls.put = self.orig
+        self.cls.clear_all = self.orig_clear_all
 
 
 def run_schedule(impl, actors_steps, strategy, line=False, dims=None, core_kw=None):
@@ -127,12 +143,14 @@ def run_schedule(impl, actors_steps, strategy, line=False, dims=None, core_kw=No
         sess = session.Session(impl, sim=sim, checked_locks=False, frag=dims["frag"], empty_rate=dims["empty_rate"], timeouts_cost_time=False, **dict({"budget": 200000}, **(core_kw or {})))
         out = sess.call("connect")
         assert out.ok, out
+        spy.core = sess.core
         sess.core.excl_wait = 0.01        # (an actor found inside the transport is suspended there for good: see MemTransport._excl)
         sess.dev._local_id = dims.get("id_start", 0)
         sim.pick = lambda ready: strategy.choose("dev", list(range(len(ready))), None)
         runners = [scen.Runner(sess, {"dims": dims, "steps": steps}) for steps in actors_steps]
         results = [[] for _ in actors_steps]
         held_at_end = []
+        gate = {}
         lock_names = {}
         io = sess.dev._io_manager
         for nm, lk in (("store", io._store_lock), ("transport", io._transport_lock), ("id", sess.dev._local_id_lock)):
@@ -156,7 +174,20 @@ def run_schedule(impl, actors_steps, strategy, line=False, dims=None, core_kw=No
                     for i, step in enumerate(actors_steps[ai]):
                         if step["op"] == "reconnect":
                             sess.call("close")
-                            sess.call("connect")
+                            oc_ = sess.call("connect")
+                            if oc_.ok and oc_.value is True:
+                                gate["open_seq"] = sess.core.ncalls        # the new connection is up from this transport-call index on
+                            continue
+                        if step["op"] == "close-only":
+                            sess.call("close")
+                            continue
+                        if step["op"] == "gate":
+                            # start only after another actor's connect() has returned
+                            n_ = 0
+                            while "open_seq" not in gate and n_ < 5000 and not s.aborted:
+                                n_ += 1
+                                s.yield_point("gate")
+                            gate["after"] = gate.get("after", []) + [(ai, i + 1)]
                             continue
                         o, v = runners[ai].run_step(i, step)
                         results[ai].append((step, o, v))
@@ -218,13 +249,25 @@ def run_schedule(impl, actors_steps, strategy, line=False, dims=None, core_kw=No
             res["viol"].append({"mechanism": "deadlock", "detail": "%s: actors %r wait for locks %r and nobody can run" % (where, s.deadlock["blocked"], names)})
         for (aid, e) in s.errors:
             res["viol"].append({"mechanism": "actor-crashed:%s" % type(e).__name__, "detail": "%s: actor %d: %s: %s" % (where, aid, type(e).__name__, str(e)[:200])})
-        tolerant = any(st_["op"] == "reconnect" for a_ in actors_steps for st_ in a_)
+        tolerant = any(st_["op"] in ("reconnect", "close-only") for a_ in actors_steps for st_ in a_)
+        if tolerant and "open_seq" in gate and not any(k_ >= gate["open_seq"] and kind_ == "close" for (k_, kind_, _) in sess.core.log):
+            # nobody closed the transport after the re-connect: an operation that started on the new connection (after the gate) must be served correctly,
+            # whatever an earlier close() of another actor is still finishing
+            for (ai_, from_) in (gate.get("after", []) if len(gate.get("after", [])) == 1 else []):      # (with two operations on the new connection the known finding K1 may strike)
+                for (step_, o_, v_) in results[ai_][0:]:
+                    res["ops_after_reconnect"] = res.get("ops_after_reconnect", 0) + 1
+                    if not o_.ok or v_:
+                        res["viol"].append({"mechanism": "new-connection-disturbed-by-old-close", "detail": "%s: actor %d's %s, started after connect() had returned and with no close of the transport afterwards, gave %s %s" % (
+                            where, ai_, step_["op"], o_.brief(100), v_[0]["detail"][:100] if v_ else "")})
+        for (actor_, pending_) in spy.wiped_live[:1]:
+            res["viol"].append({"mechanism": "live-packets-wiped", "detail": "%s: actor %s cleared the packet store while the transport was connected and %d stream(s) had packets parked (they belong to operations of the current connection)" % (where, actor_, pending_)})
+        keep_ = [v for v in res["viol"] if v["mechanism"] in ("new-connection-disturbed-by-old-close", "live-packets-wiped")]
         if tolerant:
             # one actor replaced the connection under the others: their operations may fail in any way; what is still judged is locking (deadlock, lock order,
             # locks held at return, transport calls without the lock)
             results = [[] for _ in results]
             spy.events = []
-            res["viol"] = [v for v in res["viol"] if v["mechanism"] == "deadlock"]
+            res["viol"] = [v for v in res["viol"] if v["mechanism"] == "deadlock"] + keep_
         # K1 events: a CLSE that put() dropped although its stream is a live stream of another actor
         dropped = {}
         for (actor, a0, a1, cmd, stored, known) in spy.events:
@@ -474,6 +517,7 @@ def run_case(case):
                 mine.append(rng.choice(POOL)(k))
                 k += 1
             steps.append(mine)
+        force_lp = 0.0
         if rng.random() < 0.12:
             # one actor first asks for a service the device refuses (CLSE instead of OKAY): that operation fails; the others must not notice
             a = rng.randrange(nact)
@@ -487,7 +531,13 @@ def run_case(case):
             ckw = None
         dims = {"maxdata": rng.choice([4096, 8192, 65536]), "remote": rng.choice(gen.REMOTE_REGIMES), "id_start": rng.choice(gen.ID_STARTS), "frag": rng.choice(["whole", "minus1"]),
                 "empty_rate": rng.choice([0.0, 0.1]), "noise": []}
-        if ckw is None and case["impl"] == "sync" and rng.random() < 0.08:
+        if ckw is None and case["impl"] == "sync" and rng.random() < 0.06:
+            # one actor closes, another closes and connects again, a third starts an operation once that connect() has returned
+            steps = [[{"op": "close-only"}], [{"op": "reconnect"}], [{"op": "gate"}, sh("late", 3)], [{"op": "gate"}, sh("late2", 3)]][:rng.choice([3, 4, 4])]
+            nact = len(steps)
+            force_lp = 0.5
+            stats["schedules_with_late_close"] = stats.get("schedules_with_late_close", 0) + 1
+        elif ckw is None and case["impl"] == "sync" and rng.random() < 0.08:
             # one more actor closes the connection and connects again while the others run
             steps.append([{"op": "reconnect"}])
             nact += 1
@@ -501,6 +551,8 @@ def run_case(case):
             steps[a] = [dict(sh("imp%d-%d" % (a, j), 2), impatient=True, read_timeout_s=rng.choice([0.02, 0.06])) for j in range(rng.choice([1, 2]))]
             stats["schedules_with_impatient_actor"] = stats.get("schedules_with_impatient_actor", 0) + 1
         lp = rng.choice([0.02, 0.1, 0.3]) if case.get("line") and case["impl"] == "sync" else 0.0
+        if force_lp:
+            lp = force_lp
         if case["kind"] == "pct":
             strat = sched.PCT(case["seed"], nact, depth=rng.choice([1, 2, 3]), horizon=rng.choice([50, 200, 600]), line_prob=lp)
         else:
